@@ -51,6 +51,11 @@ def _shallow(v):
 
 def _apply_op(world, ev):
     """Run one thread event; the observation is computed atomically (no scheduling points)."""
+    if ev[0] != "op":
+        out = world.apply(ev)
+        if out is not None and out[0] == "exc":
+            return ("exc", type(out[1]).__name__)
+        return ("ok", "null")
     _, h, op, args = ev
     try:
         r = model.impl_call(world.handle_objs[h], op, args, world.mk_synced)
